@@ -41,6 +41,9 @@ type DCfg struct {
 	// harness only (virtual time): how long the policy's failure listener and the delay function take; the model reads
 	// the scheduling instant, which is after both
 	LsnSleep, DfSleep int64
+	// harness only: a delay setter of another kind called on the same builder BEFORE the one that counts, which replaces it
+	// ("random" before backoff / fixed, "backoff" before random, "delay" before backoff / random)
+	Pre string
 }
 
 func (c DCfg) Gallina() string {
@@ -53,6 +56,14 @@ func (c DCfg) Build(tbl [][2]int64, maxRetries int, onSched func(failsafe.Execut
 	// the independent option groups commute: they are applied in an order chosen by the generator
 	groups := []func(){
 		func() {
+			switch c.Pre {
+			case "random":
+				b = b.WithRandomDelay(53*time.Millisecond, 59*time.Millisecond)
+			case "backoff":
+				b = b.WithBackoff(47*time.Millisecond, 470*time.Millisecond)
+			case "delay":
+				b = b.WithDelay(43 * time.Millisecond)
+			}
 			switch {
 			case c.MaxDelay != 0:
 				if c.Factor == 2 {
@@ -189,6 +200,16 @@ func TestDrive_C13(t *testing.T) {
 		case "random":
 			c.Min = 1 + rng.I64n(mag)
 			c.Max = c.Min + rng.I64n(mag)
+		}
+		if rng.Chance(30) {
+			switch kind {
+			case "backoff":
+				c.Pre = Pick(rng, []string{"random", "delay"})
+			case "random":
+				c.Pre = Pick(rng, []string{"backoff", "delay"})
+			case "fixed":
+				c.Pre = "random"
+			}
 		}
 		switch rng.Intn(4) {
 		case 0:
